@@ -397,6 +397,14 @@ for nm, lazy in (("lr_greedy_h3", False), ("lr_lazy_h3", True)):
       functions=TOKEN_FUNCS, bounds="6-byte text (symbolic bytes), [literal, reference(len, dist symbolic)], <= 1 candidate per position/offset, estimator_range with %s matching" % ("lazy" if lazy else "greedy"),
       assumptions=MODEL_ASSUME + ["recording codec Rec"])
 
+for nm in ("lit_lazy_h3", "ref_lazy_h3", "lit_greedy_h3", "ref_greedy_h3"):
+    kind, mt, _ = nm.split("_")
+    H("k02e_step_" + nm, "token_predictor", ["C02", "C08", "C05"], tier="experimental", unwind=6, unwindset=dict(TOKEN_UW, token_step=8), timeout=3600, mem_gb=30,
+      claim="inductive step of the token mirror: from ANY common pre-state (cursor inside the text, any pending lazy match, any token counter) a block of one %s token is reconstructed by recreate_block from what predict_block recorded, corrections consumed exactly, both sides leave the block in the same state (cursor, pending match, counter) and made identical dictionary updates" % ("literal" if kind == "lit" else "reference"),
+      functions=TOKEN_FUNCS, bounds="6-byte text (symbolic bytes), cursor at 2, one %s token (length/distance symbolic), <= 1 candidate per position/offset, estimator_range with %s matching, fixed or dynamic block type" % ("literal" if kind == "lit" else "reference", mt),
+      outside="blocks of several tokens are covered only through this step (induction argued, not solver-checked); 4-byte hash width; more than one candidate",
+      assumptions=MODEL_ASSUME + ["recording codec Rec", "Vec::push replaced by an equivalent that case-splits on the length (stub_vec_push_any)"])
+
 # ---------------------------------------------------------------- thorough-tier deepenings (same lemmas, larger bounds)
 H("k01e_idat_more_layouts", "idat_parse", ["C01", "C05", "C06"], tier="thorough", unwind=6, unwindset=IDAT_UW, timeout=2400, mem_gb=24,
   claim="parse_idat totality / postconditions / acceptance on further layouts", functions=IDAT_FUNCS[:1], bounds="layouts (12), (3,4)+5 trailing, (5,1), (2,2)+9 trailing; content symbolic", assumptions=IDAT_ASSUME)
@@ -471,24 +479,24 @@ def version_gate(dst, verif):
 # ---------------------------------------------------------------------------
 _T = "bounded symbolic execution of the real code (Kani 0.68 / CBMC 6.11 / CaDiCaL)"
 PROPS = {
-    "C01": dict(design_ref="§2 C01", technique=_T + ": header parsers, parse_idat on concrete chunk layouts, varint/literal-chunk/IDAT-descriptor round trips, scanner on files where nothing is accepted",
+    "C01": dict(design_ref="§2 C01", technique=_T + ": the real scanner loop over contract stubs of its callees (cursor arithmetic, tiling, inductive step), the contracts themselves (next_signature, header parsers, parse_idat on concrete chunk layouts), varint / chunk-framing / IDAT-descriptor round trips",
                 level_text="Every lemma the container round trip decomposes into is decided by the SAT solver for all inputs inside the stated byte bounds; composition across lemmas is by argument (DESIGN §C01).",
-                level_note="Bounds per harness in evidence. Outside: files in which a stream is accepted (scanner cursor arithmetic of the accepting arms: tiling harnesses are thorough-tier and ran out of memory), IDAT parse->recreate identity (thorough). Trusted: Kani/CBMC, stubs, crc32fast shim / cheap checksum stub."),
+                level_note="Bounds per harness in evidence. Outside: the composition of the lemmas (argued in DESIGN), IDAT runs of more than one chunk inside the scanner harness, IDAT parse->recreate identity with the real CRC (experimental). Trusted: Kani/CBMC, contract stubs (each discharged by a named harness), crc32fast shim / cheap checksum flag."),
     "C02": dict(design_ref="§2 C02", technique=_T + ": mirror-pair lemmas (parameter header over estimator_range, run-length tree mirror, hops inverse and matcher totality over a model chain, writer token coding)",
                 level_text="Each encoder/decoder mirror pair is decided for all inputs inside its bound with the arithmetic coder replaced by a transparent recording codec.",
                 level_note="Model hash chain at the HashChain trait seam (real hash tables are out of reach). Outside: the token-level predict_block/recreate_block mirror (harness exists, out of memory at every size), block-structure mirror (thorough), dynamic-block Huffman prediction, table-based estimators."),
     "C03": dict(design_ref="§2 C03", technique=_T + ": differential harness against an RFC 1951 reference decoder written in the harness",
                 level_text="Tables, fixed code, stored blocks, window copy and the top length/distance codes of the real reader equal an independent RFC-1951 reading typed into the harness.",
-                level_note="Oracle is the in-harness RFC 1951 reference (not zlib itself, which is C). Outside: dynamic blocks, window distances above 64 in the quick tier, consumed-prefix lemma (thorough)."),
+                level_note="Oracle is the in-harness RFC 1951 reference (not zlib itself, which is C). Outside: dynamic block data through the reader; window distances between 65 and 32765; in the quick tier only the top length/distance codes of the reader (all codes in the thorough tier)."),
     "C04": dict(design_ref="§2 C04", technique=_T + ": bounded equivalence of format-defining kernels, current tree vs frozen reference crate",
                 level_text="For each format-defining kernel the solver shows current(x) == reference(x) for all x in the bound; an announced version bump passes.",
                 level_note="Kernel list in evidence; code outside the list (table-level chain code, estimators) is not covered."),
-    "C05": dict(design_ref="§2 C05", technique=_T + ": Kani panic/overflow/bounds/unwinding checks on parser, tree predictor, matcher, container",
+    "C05": dict(design_ref="§2 C05", technique=_T + ": Kani panic/overflow/bounds/unwinding checks on scanner loop, parsers, tree predictor, matcher, container, chain position arithmetic",
                 level_text="No panic, overflow, out-of-bounds or unbounded loop for any input inside the bounds, for the harnessed functions.",
                 level_note="Estimators and the real hash-table walk are outside; dev-profile semantics."),
-    "C06": dict(design_ref="§2 C06", technique=_T + ": stand-alone lemmas for the failure modes: signature table, exact gzip header length (RFC 1952), zip data offset, IDAT acceptance; scanner with offset oracle in the thorough tier",
-                level_text="next_signature reports exactly the documented signatures; skip_gzip_header leaves the cursor at the RFC 1952 header length for every flag subset; parse_zip_stream computes 30 + name + extra for method 8; parse_idat accepts every run with correct checksums. The scanner loop that glues them (offset-oracle harnesses) is thorough-tier only.",
-                level_note="Quick tier does not execute the scanner loop on an accepted stream (12-15 min and >20 GB per wrapper): the MIN_BLOCKSIZE threshold and the glue are undecided there. Inputs <= 16 (gzip) / 34 (zip) bytes."),
+    "C06": dict(design_ref="§2 C06", technique=_T + ": stand-alone lemmas for the failure modes: signature table and signature search, exact gzip header length (RFC 1952), zip data offset, IDAT acceptance, and the real scanner loop over those contracts",
+                level_text="next_signature reports exactly the documented signatures and skips none; skip_gzip_header leaves the cursor at the RFC 1952 header length for every flag subset; parse_zip_stream computes 30 + name + extra for method 8; parse_idat accepts every run with correct checksums; the scanner loop emits an accepted stream at exactly the offset its parser reported.",
+                level_note="The scanner loop runs over contract stubs (k01s_*), not over real header bytes: the end-to-end form with an offset oracle (k06a/b/c) is experimental and does not finish. Inputs <= 16 (gzip) / 34 (zip) bytes for the header lemmas; acceptance of S by the real analysis is C02's subject."),
     "C07": dict(design_ref="§2 C07", technique=_T + ": stored-block parse -> re-serialise identity; writer token coding vs an RFC 1951 reference decoder (fixed and arbitrary codes); reader on concrete-layout fixed tokens with symbolic extra bits",
                 level_text="Stored blocks: reader then writer reproduces the consumed bytes. Tokens: the writer emits exactly the RFC coding for every literal and (length, distance) incl. 284+31 under the fixed code and under arbitrary code lengths/values; the reader decodes the top length/distance codes with every extra-bit value.",
                 level_note="Fixed tables precomputed natively from the same source (equality under Kani in thorough). Outside: dynamic headers (HuffmanOriginalEncoding::read/write), multi-token reader runs (thorough), lower length/distance codes on the reader side (thorough)."),
